@@ -57,8 +57,9 @@ func c17Engine(db *database.Database, cwd, rawQuery string, limitFlag int, allPl
 
 type c17HistFile struct {
 	Entries []struct {
-		Query        string `json:"query"`
-		ResultsCount int    `json:"results_count"`
+		Query        string    `json:"query"`
+		ResultsCount int       `json:"results_count"`
+		Timestamp    time.Time `json:"timestamp"`
 	} `json:"entries"`
 }
 
@@ -108,6 +109,7 @@ func c17UniqueDB(r *rand.Rand, n int, platforms int) []vlib.Cmd {
 
 func engineCLISearch(ctx *Ctx) {
 	r := vlib.NewRand(ctx.Seed, ctx.Shard, "cli-search")
+	engineStart := time.Now()
 	nHome := ctx.N(192, 3200)
 	for hI := 0; hI < nHome; hI++ {
 		base := filepath.Join(ctx.Scratch, fmt.Sprintf("cs%d", hI))
@@ -165,7 +167,7 @@ func engineCLISearch(ctx *Ctx) {
 			// a home that has been in use: the history file is full or almost full (max_size 100) when the first search runs; in
 			// two of three such homes its entries carry timestamps from a clock that ran ahead, or are not in timestamp order
 			nPre := []int{99, 100, 100}[r.Intn(3)]
-			tsMode := (g / 5) % 3
+			tsMode := (g / 5) % 4
 			perm := r.Perm(nPre)
 			pre := c16ValidFileTS(nPre, "100", false, r.Intn(50), func(i int) int {
 				switch tsMode {
@@ -178,14 +180,42 @@ func engineCLISearch(ctx *Ctx) {
 				}
 				return i
 			})
+			if tsMode == 3 {
+				// entries dated at the ends of the representable calendar (a restored backup with broken dates, a test entry)
+				first := []string{"0000-01-01T00:00:00Z", "0000-01-01T00:30:00+01:00", "0001-01-01T00:00:00Z"}[r.Intn(3)]
+				last := []string{"9999-12-31T23:59:59Z", "9999-12-31T21:15:00-05:00", "9999-12-31T23:59:59.999999999Z"}[r.Intn(3)]
+				txt := string(pre)
+				if i := strings.Index(txt, `"timestamp": "`); i >= 0 {
+					j := i + len(`"timestamp": "`)
+					txt = txt[:j] + first + txt[j+strings.Index(txt[j:], `"`):]
+				}
+				if i := strings.LastIndex(txt, `"timestamp": "`); i >= 0 {
+					j := i + len(`"timestamp": "`)
+					txt = txt[:j] + last + txt[j+strings.Index(txt[j:], `"`):]
+				}
+				pre = []byte(txt)
+			}
 			os.MkdirAll(filepath.Dir(histPath), 0o755)
 			os.WriteFile(histPath, pre, 0o644)
 			if hf, ok := c17ReadHist(histPath); ok && len(hf.Entries) == nPre {
+				if tsMode == 3 {
+					ctx.R.Path("homes-with-a-history-dated-at-the-ends-of-the-calendar", 1)
+				}
 				prevHist, prevQuery = nPre, hf.Entries[nPre-1].Query
 				ctx.R.Path("homes-with-a-full-history", 1)
 				if tsMode != 0 {
 					ctx.R.Path("homes-with-a-full-history-odd-timestamps", 1)
 				}
+			}
+		}
+		// the user's time zone: half of the homes run under a generated zone (TZ=<zone file>): fixed offsets between -12:00 and
+		// +14:00, or a zone whose clocks went back ten minutes before the run started / will 55 minutes after it
+		if zk := g / 2; g%2 == 0 && zk%10 != 0 {
+			if z, ok := vlib.ZoneFor(zk, engineStart); ok {
+				zp := filepath.Join(base, "zone")
+				z.WriteFile(zp)
+				homeEnv = append(homeEnv, "TZ="+zp)
+				ctx.R.Path("homes-in-a-generated-time-zone", 1)
 			}
 		}
 		for s := 0; s < nSearch; s++ {
@@ -267,6 +297,7 @@ func engineCLISearch(ctx *Ctx) {
 			ctx.R.Eval(1)
 			var res CLIResult
 			replicaCwd := h.Cwd
+			tCall := time.Now()
 			if cwdGone {
 				ents, _ := os.ReadDir(h.Cwd)
 				if len(ents) == 0 {
@@ -470,6 +501,10 @@ func engineCLISearch(ctx *Ctx) {
 			} else if last := hf.Entries[len(hf.Entries)-1]; last.Query != q || (printedN >= 0 && last.ResultsCount != printedN) {
 				ctx.R.Violate(vlib.Violation{Property: "C17", Clause: "history-newest-entry", Path: "search_history.json",
 					Detail: fmt.Sprintf("newest history entry is (%s, %d), the search was (%s, %d printed)", vlib.Q(last.Query), last.ResultsCount, vlib.Q(q), printedN), Witness: cs})
+			} else if ts := last.Timestamp; ts.Before(tCall.Add(-5*time.Minute)) || ts.After(time.Now().Add(5*time.Minute)) {
+				// the entry of this search carries the time of this search (five minutes of latitude for a stepping clock)
+				ctx.R.Violate(vlib.Violation{Property: "C17", Clause: "history-newest-entry", Path: "search_history.json",
+					Detail: fmt.Sprintf("the entry recorded for this search is stamped %s; the search ran between %s and %s", ts.Format(time.RFC3339), tCall.UTC().Format(time.RFC3339), time.Now().UTC().Format(time.RFC3339)), Witness: cs})
 			} else {
 				ctx.R.Path("history-checked", 1)
 			}
@@ -646,10 +681,30 @@ func engineCLICommands(ctx *Ctx) {
 				args = append(args, []string{"w", "wtf2", "my alias", "../x", "", "-"}[r.Intn(6)])
 			}
 		case 7:
+			// `wtf setup <name>`: names a user may type (and names that are special to a shell, a format string or a pattern
+			// language), with shell start-up files absent, empty, commented, or already holding alias lines from earlier runs
+			names := []string{"hey", "miko", "cmd", "c++", "grep(", "what?*", "a[b", "x\\", ".*", "^$", "%s%d", "a=b", "my alias", "日本", "-", "$(id)", "'", strings.Repeat("n", 300), "(?i)x", "a{2,1}", "\\Q", "[[:alpha:]"}
 			args = []string{"setup"}
-			if r.Intn(2) == 0 {
-				os.WriteFile(filepath.Join(h.Dir, ".bashrc"), []byte("# rc\n"), 0o644)
+			if r.Intn(8) > 0 {
+				args = append(args, "--", names[r.Intn(len(names))])
 			}
+			for _, rc := range []string{".bashrc", ".zshrc"} {
+				p := filepath.Join(h.Dir, rc)
+				switch r.Intn(6) {
+				case 0:
+					os.Remove(p)
+				case 1:
+					os.WriteFile(p, nil, 0o644)
+				case 2:
+					os.WriteFile(p, []byte("# rc\n"), 0o644)
+				case 3:
+					os.WriteFile(p, []byte("# rc\nalias ll='ls -l'\nalias hey='/usr/local/bin/wtf'\n  alias c++='wtf'\nunalias miko\n# alias cmd='x'\n"), 0o644)
+				case 4:
+					os.WriteFile(p, []byte("export PATH=$PATH:~/bin\nalias "+names[r.Intn(len(names))]+"='wtf'\n"), 0o644)
+				default: // left as the earlier runs made it
+				}
+			}
+			ctx.R.Path("setup-runs", 1)
 		case 8:
 			args = []string{"save", "--", arg(), arg()}
 		case 9:
